@@ -91,8 +91,132 @@ func setModuleTokens(r *hlib.Rand, s *Spec) {
 	}
 }
 
-func genSpec(r *hlib.Rand, id int) Spec {
-	s := Spec{ID: id, Seq: uint64(id + 1), DstChan: dstChan, SrcChan: srcChan, Sender: "cosmos1pfaqzykhuzugsmvytq0kpnx40qlrzq3nyt2kg3", ChanEscrow: "0"}
+const defaultSender = "cosmos1pfaqzykhuzugsmvytq0kpnx40qlrzq3nyt2kg3"
+
+// directed: the corpus that runs first on EVERY run, whatever the seed — one case per return path of the hook and of the
+// transfer application, per conversion outcome, and per past failure (D3, receiver-not-20-bytes, the rollback cases that a
+// conversion on the parent context / a write() before the error test / a missing cache context need, a failed conversion
+// that must keep the success acknowledgement, a failed transfer that must not reach the hook), followed by three short
+// HISTORIES of packets committed one after the other through ibc-go's core handler.
+func directed() []Spec {
+	rcvA := hexs([]byte("verif-c16-rcv-aaaaaa"))
+	rcvB := hexs([]byte("verif-c16-rcv-bbbbbb"))
+	rcv32 := hexs([]byte("verif-c16-interchain-account-32b"))
+	var out []Spec
+	add := func(tag string, f func(s *Spec)) {
+		s := Spec{Reg: "coin", ModuleTokens: "0", PreVoucher: "0", PreEscrow: "0", ChanEscrow: "0", Denom: "uatom", Amount: "100",
+			Sender: defaultSender, Receiver: rcvA, DstChan: dstChan, SrcChan: srcChan, Tag: "directed-" + tag}
+		f(&s)
+		s.ID = len(out)
+		s.Seq = uint64(s.ID + 1)
+		out = append(out, s)
+	}
+	raw := func(b string) *string { h := hlib.Hex([]byte(b)); return &h }
+	// conversions
+	add("convert-module-owned", func(s *Spec) {})
+	add("convert-module-owned-prior-funds", func(s *Spec) { s.PreVoucher, s.PreEscrow, s.Denom = "7", "11", "transfer/channel-3/uxyz" })
+	add("convert-external-exact", func(s *Spec) { s.Reg, s.ModuleTokens = "ext", "100" })
+	add("convert-external-plenty", func(s *Spec) { s.Reg, s.ModuleTokens, s.PreVoucher = "ext", "5000", "3" })
+	add("convert-big-amount", func(s *Spec) { s.Amount = pow2(200).String() })
+	// conversions that fail AFTER the escrow step: only the cache context undoes the escrow
+	add("rollback-external-one-short", func(s *Spec) { s.Reg, s.ModuleTokens = "ext", "99" })
+	add("rollback-external-empty", func(s *Spec) { s.Reg, s.ModuleTokens, s.PreVoucher = "ext", "0", "40" })
+	add("rollback-mint-to-zero-address", func(s *Spec) { s.Receiver = hexs(make([]byte, 20)) })
+	// conversions that fail BEFORE the escrow step: the success acknowledgement must survive
+	add("fail-pair-disabled", func(s *Spec) { s.PairDisabled = true })
+	add("fail-module-disabled", func(s *Spec) { s.AggDisabled = true })
+	add("fail-pair-disabled-external", func(s *Spec) { s.Reg, s.ModuleTokens, s.PairDisabled = "ext", "500", true })
+	add("send-disabled-own-account", func(s *Spec) { s.SendDisabled = true }) // sender == receiver: the switch does not apply
+	// registry states
+	add("unregistered", func(s *Spec) { s.Reg = "none" })
+	add("dangling-index", func(s *Spec) { s.Reg = "dangling" })
+	add("selfdestructed-pair", func(s *Spec) { s.Reg = "suicided" })
+	add("selfdestructed-pair-disabled", func(s *Spec) { s.Reg, s.PairDisabled = "suicided", true })
+	// receivers that are not EVM addresses
+	add("receiver-32-bytes", func(s *Spec) { s.Receiver = rcv32 })
+	add("receiver-32-bytes-external", func(s *Spec) { s.Reg, s.ModuleTokens, s.Receiver = "ext", "100", rcv32 })
+	add("receiver-5-bytes", func(s *Spec) { s.Receiver = hexs([]byte("short")) })
+	add("receiver-21-bytes", func(s *Spec) { s.Receiver = hexs([]byte("verif-c16-rcv-21-byte")) })
+	add("receiver-blocked-aggregate-module", func(s *Spec) { s.Receiver = hexs(authtypes.NewModuleAddress("aggregate")) })
+	add("receiver-blocked-transfer-module", func(s *Spec) { s.Receiver = hexs(authtypes.NewModuleAddress("transfer")) })
+	add("receiver-bad-bech32", func(s *Spec) { s.Receiver = "not-a-bech32-address" })
+	add("receiver-blank", func(s *Spec) { s.Receiver = " " })
+	// failed transfers over a state in which a conversion WOULD succeed: the hook must not run
+	add("failed-transfer-receive-disabled", func(s *Spec) { s.RecvDisabled, s.PreVoucher = true, "250" })
+	add("failed-transfer-unescrow-short", func(s *Spec) {
+		s.Denom, s.ChanEscrow, s.PreVoucher = "transfer/"+srcChan+"/atele", "99", "250"
+	})
+	add("failed-transfer-blank-sender", func(s *Spec) { s.Sender, s.PreVoucher = " ", "250" })
+	// amounts
+	add("amount-zero", func(s *Spec) { s.Amount, s.PreVoucher = "0", "5" })
+	add("amount-negative", func(s *Spec) { s.Amount, s.PreVoucher = "-5", "50" }) // direct hook: sdk.NewCoin panics
+	add("amount-non-numeric", func(s *Spec) { s.Amount = "12a" })
+	add("amount-hex-prefix", func(s *Spec) { s.Amount, s.PreVoucher = "0x10", "3" })
+	add("amount-2^256", func(s *Spec) { s.Amount = pow2(256).String() })
+	add("amount-2^256-1", func(s *Spec) { s.Amount = new(big.Int).Sub(pow2(256), big.NewInt(1)).String() })
+	// undecodable data (direct hook: decode-error return)
+	add("data-empty", func(s *Spec) { s.Raw = raw("") })
+	add("data-null", func(s *Spec) { s.Raw = raw("null") })
+	add("data-truncated", func(s *Spec) { s.Raw = raw(`{"amount":"100","denom":"uatom","rec`) })
+	add("data-missing-fields", func(s *Spec) { s.Raw = raw(`{"denom":"uatom","amount":"5"}`) })
+	// returning tokens
+	add("returning-native", func(s *Spec) { s.Denom, s.ChanEscrow, s.Reg = "transfer/"+srcChan+"/atele", "100", "none" })
+	add("returning-voucher", func(s *Spec) {
+		s.Denom, s.ChanEscrow, s.Reg = "transfer/"+srcChan+"/transfer/channel-3/uxyz", "150", "none"
+	})
+	add("returning-hook-denom-registered", func(s *Spec) { s.Denom, s.ChanEscrow, s.PreVoucher = "transfer/"+srcChan+"/atele", "100", "100" })
+	add("returning-short-base", func(s *Spec) { s.Denom, s.ChanEscrow = "transfer/"+srcChan+"/u", "0" }) // sdk.NewCoin panics inside ibc-go
+	// denominations / channels
+	add("denom-prefixed-with-dest", func(s *Spec) { s.Denom = "transfer/channel-0/uatom" })
+	add("denom-invalid", func(s *Spec) { s.Denom = "transfer//x" })
+	// a registered look-alike denomination (voucher of the same base denomination over the COUNTERPARTY's channel identifier)
+	// held by the receiver: must not be touched, whether or not the packet's own voucher is registered
+	add("decoy-source-channel-denom", func(s *Spec) { s.Decoy = true })
+	add("decoy-source-channel-denom-unregistered", func(s *Spec) { s.Decoy, s.Reg = true, "none" })
+	add("other-dest-channel", func(s *Spec) { s.DstChan = "channel-1" })
+	add("other-source-channel", func(s *Spec) { s.SrcChan = "channel-9" })
+	// history 1 (module-owned pair): convert, convert again, pair disabled -> vouchers stay, re-enabled -> convert
+	add("history-coin-1", func(s *Spec) { s.Receiver = rcvB })
+	add("history-coin-2", func(s *Spec) { s.Receiver, s.Chain, s.Reg, s.Amount = rcvB, true, "keep", "40" })
+	add("history-coin-3-disabled", func(s *Spec) { s.Receiver, s.Chain, s.Reg, s.PairDisabled = rcvB, true, "keep", true })
+	add("history-coin-4-reenabled", func(s *Spec) { s.Receiver, s.Chain, s.Reg, s.Amount = rcvB, true, "keep", "60" }) // converts 60 of the 160
+	// history 2 (external pair, module holds 150): convert 100, then 100 more cannot be released -> rolled back, then 50 can
+	add("history-ext-1", func(s *Spec) { s.Receiver, s.Reg, s.ModuleTokens, s.Denom = rcvB, "ext", "150", "uosmo" })
+	add("history-ext-2-short", func(s *Spec) { s.Receiver, s.Chain, s.Reg, s.Denom = rcvB, true, "keep", "uosmo" })
+	add("history-ext-3", func(s *Spec) { s.Receiver, s.Chain, s.Reg, s.Denom, s.Amount = rcvB, true, "keep", "uosmo", "50" })
+	// history 3: a failed packet in between changes nothing; the contract self-destructs... (registry survives a failed receive)
+	add("history-mixed-1", func(s *Spec) { s.Receiver, s.Denom = rcvB, "stake" })
+	add("history-mixed-2-bad-amount", func(s *Spec) { s.Receiver, s.Chain, s.Reg, s.Denom, s.Amount = rcvB, true, "keep", "stake", "-1" })
+	add("history-mixed-3-other-receiver", func(s *Spec) { s.Chain, s.Reg, s.Denom = true, "keep", "stake" })
+	add("history-mixed-4-32-byte-receiver", func(s *Spec) { s.Receiver, s.Chain, s.Reg, s.Denom = rcv32, true, "keep", "stake" })
+	return out
+}
+
+func genSpec(r *hlib.Rand, id int, prev *Spec) Spec {
+	s := Spec{ID: id, Seq: uint64(id + 1), DstChan: dstChan, SrcChan: srcChan, Sender: defaultSender, ChanEscrow: "0"}
+	// histories: continue on the state the previous packet left (committed through ibc-go core), same denomination, mostly
+	// the same receiver, whatever registration is there; switches are re-drawn
+	if prev != nil && prev.Raw == nil && prev.DstChan == dstChan && prev.SrcChan == srcChan && r.Chance(1, 5) {
+		s.Chain, s.Reg, s.Tag = true, "keep", "history"
+		s.Denom, s.Receiver, s.ModuleTokens, s.PreVoucher, s.PreEscrow = prev.Denom, prev.Receiver, "0", "0", "0"
+		s.Amount = genValidAmount(r)
+		if r.Chance(1, 4) {
+			s.Receiver = normalReceiver(r)
+		}
+		s.PairDisabled = r.Chance(1, 5)
+		s.AggDisabled = r.Chance(1, 10)
+		s.SendDisabled = prev.SendDisabled
+		if r.Chance(1, 6) {
+			s.Amount = prev.Amount // the same amount once more
+		}
+		if strings.HasPrefix(s.Denom, "transfer/"+srcChan+"/") {
+			s.ChanEscrow = s.Amount
+			if a, ok := new(big.Int).SetString(s.Amount, 0); !ok || a.Sign() <= 0 || a.BitLen() > 250 {
+				s.ChanEscrow = "0"
+			}
+		}
+		return s
+	}
 	genRegistry(r, &s)
 	s.Denom = baseDenoms[r.Intn(len(baseDenoms))]
 	s.Amount = genValidAmount(r)
@@ -104,6 +228,7 @@ func genSpec(r *hlib.Rand, id int) Spec {
 		if r.Chance(2, 3) && s.Reg == "none" {
 			s.Reg = "coin"
 		}
+		s.Decoy = r.Chance(1, 6)
 	case x < 54:
 		s.Tag = "receiver"
 		switch r.Intn(11) {
